@@ -49,8 +49,10 @@ static Crystal_Struct *mk(const char *name) {
     c->volume = 0.0;                        /* deliberately wrong: "recomputed volume" must be observable */
     c->n_atom = 1 + h % 3;
     if (name[0] == 'O') c->n_atom = 0;      /* names in O: a crystal without atoms whose atom pointer is nevertheless a live buffer (reserved, not yet filled) */
+    int hostile = name[0] == 'N';           /* names in N: an atom count of -1 (the copy inside the library cannot be made: the addition is rejected LATE) */
     c->atom = calloc(c->n_atom ? c->n_atom : 1, sizeof *c->atom);
     for (int i = 0; i < c->n_atom; i++) { c->atom[i].Zatom = 6 + (h + i) % 20; c->atom[i].fraction = (i % 2) ? 0.5 : 1.0; c->atom[i].x = 0.25 * i; c->atom[i].y = 0.1 * (h % 7); c->atom[i].z = 0.5; }
+    if (hostile) c->n_atom = -1;
     return c;
 }
 static void mkfree(Crystal_Struct *c) { free(c->name); free(c->atom); free(c); }
